@@ -97,6 +97,9 @@ func (c *cluster) pollTasks() {
 				if ur.Pos <= pt.floorPos {
 					c.fail("client-semantics", "realtime-order", "update %d was submitted after an update at position %d had completed, yet took position %d", pt.id, pt.floorPos, ur.Pos)
 				}
+				if n := c.nodes[pt.nid]; n != nil && n.status == nodeUp && n.inc == pt.inc && n.sh.xferPrev && n.sh.xferNow && pt.submit == c.stepNo {
+					c.fail("transfer", "accepted-during-transfer", "update %d submitted to node %d and completed successfully while a leadership transfer was in progress there", pt.id, pt.nid)
+				}
 				tl.succeeded[pt.id] = ur.Pos
 				if ur.Pos > tl.maxPosDone {
 					tl.maxPosDone = ur.Pos
